@@ -302,6 +302,22 @@ def sites(prog, chk, fams):
             continue
         U, name = f['unit'], f['name']
         it, paths = run_function(prog, f)
+        # a value may leave the function only through the spline: a path that returns a number without calling splint() bypasses
+        # the kernel's range guards.  Accepted: the argument is pinned to ONE exact point on the path (FF_Rayl's q == 0 -> Z, the
+        # exact forward-scattering limit, measure zero); the Kissel sub-shell extension is decided by rule kissel-extension.
+        if name != 'CSb_Photo_Partial':
+            dbl = [p_['name'] for p_ in f['params'] if p_['T'] == 'double']
+            for p in value_paths(it, paths):
+                if any(e.kind == 'call' and e.name == 'splint' for e in p.events):
+                    continue
+                pinned = False
+                for xs_ in dbl[:1]:
+                    iv = it.interval_of(Rat.sym(xs_), p)
+                    pinned = iv.lo is not None and iv.hi is not None and iv.lo == iv.hi and not iv.los and not iv.his
+                chk.decide(pinned, 'no-bypass', U, name, 'value exit@%d without spline' % p.ret_node['ln'], '%s:%d' % (f['rel'], p.ret_node['ln']),
+                           'a value (%s) is returned on a path that never calls splint() and whose argument is not pinned to a single exact point: '
+                           'arguments outside the table get a number instead of the range error' % p.ret.canon()[:80],
+                           why='shortcut taken only at one exact argument value')
         for c in cs:
             nsites += 1
             loc = '%s:%d' % (f['rel'], c['ln'])
